@@ -90,6 +90,19 @@ def _fmt_path(ctx, n=10):
     return ctx.trail[-n:]
 
 
+def _lazy_record_globals(u, over=None):
+    """file-scope records without initialiser (option lists, registries) hold anything: a function explored on its own is
+    decided for every state the driver can be in, not only for the all-zero state (a fast path taken `when there is exactly
+    one input` is a path of the function)"""
+    glob = {}
+    for name, g in u.globals.items():
+        t = (g.dtype or g.type or '').replace('struct ', '').strip()
+        if t in u.records and 'init' not in g.d:
+            glob[name] = (lambda nm, tt: (lambda ctx: Obj(tt, lazy=True, label='g:' + nm)))(name, t)
+    glob.update(over or {})
+    return glob
+
+
 def run(P, rep, tier):
     u = P.unit(U)
     for f in ('main', 'cc1'):
@@ -132,6 +145,7 @@ def run(P, rep, tier):
              ('R14.3/4', lambda: r143_r144(P, u, rep, cg, reach_main, facts)),
              ('R14.5', lambda: r145(P, u, rep, cg)),
              ('R14.6', lambda: r146(P, u, rep, cg, facts)),
+             ('R14.10', lambda: r1410(P, u, rep, cg, facts)),
              ('R14.7', lambda: r147(P, rep, cg)),
              ('R14.8', lambda: r148(P, u, rep, cg, facts)),
              ('R14.9', lambda: r149(P, rep, cg, reach_main))]
@@ -340,7 +354,7 @@ def r141_paths(P, u, rep, cg, facts):
             st['tmp_failed'] = True
             return -1
         try:
-            it = L.make_interp(P, u, opaque=['strarray_push'], extra_models={'mkstemp': m_mkstemp})
+            it = L.make_interp(P, u, opaque=['strarray_push'], extra_models={'mkstemp': m_mkstemp}, globals_=_lazy_record_globals(u))
             paths = it.explore(fn, lambda ctx: [])
         except AnalysisBroken as e:
             rep.undecided('R14.1', '%s:%s:interpretation' % (U, fn), str(e))
@@ -516,7 +530,7 @@ def r143_r144(P, u, rep, cg, reach_main, facts):
             rep.ob('R14.3', '%s:%s:%s-in-driver' % (cu.name, fn, kind), cu.name == U,
                    'a process is created (%s) outside main.c (%s)' % (kind, cg.witness(fn)), where=_where(cu.fn(fn), cu.name))
         try:
-            it = L.make_interp(P, cu, loop_limit=1)
+            it = L.make_interp(P, cu, loop_limit=1, globals_=_lazy_record_globals(cu))
             it.sig_may_install = sig_may_install
             paths = it.explore(fn, lambda ctx: [])
         except AnalysisBroken as e:
@@ -789,6 +803,30 @@ def _m_strarray_push(it, ctx, n, args):
     return None
 
 
+def _m_strarray_push_store(it, ctx, n, args):
+    """strarray_push that also keeps the elements (an all-zero StringArray grows a data array): lists filled by the
+    interpreted option parser are read back by main"""
+    arr = args[0]
+    val = args[1] if len(args) > 1 else None
+    ctx.emit('call', 'strarray_push', args, n.line, None)
+    if isinstance(arr, Obj):
+        old = it.read_field(arr, 'len')
+        if isinstance(old, View):
+            old = it.force(old)
+        d = arr.fields.get('data')
+        if isinstance(old, int) and not isinstance(old, bool):
+            if not isinstance(d, Arr):
+                d = Arr([0] * old, label=(arr.label or 'list') + '.data')
+                arr.fields['data'] = d
+            while len(d.elems) < old + 2:
+                d.elems.append(0)
+            d.elems[old] = val
+            d.elems[old + 1] = 0
+        arr.fields['len'] = it.arith('+', old, 1, 'int')
+        arr.meta.setdefault('pushed', []).append(val)
+    return None
+
+
 def r146(P, u, rep, cg, facts):
     rep.rule('R14.6', 'per input: cc1 runs before the assembler on the temporary it wrote, every stage goes through run_subprocess, the linker runs once after all inputs; `-o` with several inputs and -c/-S/-E is rejected before any subprocess', floor=6)
     # every stage launcher runs the subprocess on every returning path
@@ -796,13 +834,17 @@ def r146(P, u, rep, cg, facts):
     if not launchers:
         rep.undecided('R14.6', '%s:launcher' % U, 'no function that forks was found (R14.3)')
         return
+    # (decided for every driver state: option lists / flags hold anything, so a fast path that bypasses the subprocess
+    # `when there is one input` is seen; only functions through which a launcher can be reached are interpreted)
+    to_launcher = cg.reaches(set(launchers))
     for fn in SUBPROC:
         if fn not in u.functions:
             rep.undecided('R14.6', '%s:%s:vanished' % (U, fn), 'pipeline stage function %s vanished' % fn)
             continue
         try:
-            it = L.make_interp(P, u, opaque=launchers + ['find_libpath', 'find_gcc_libpath', 'strarray_push', 'format'], loop_limit=1)
-            paths = it.explore(fn, lambda ctx: [])
+            it = L.make_interp(P, u, opaque=launchers + [f for f in cg.defs if f != fn and f not in to_launcher] + ['strarray_push', 'format'],
+                               globals_=_lazy_record_globals(u), loop_limit=1)
+            paths = it.explore(fn, lambda ctx: [], max_paths=20000)
         except AnalysisBroken as e:
             rep.undecided('R14.6', '%s:%s:interpretation' % (U, fn), str(e))
             continue
@@ -851,6 +893,9 @@ def r146(P, u, rep, cg, facts):
         rep.undecided('R14.6', '%s:main:interpretation' % U, str(e))
         return
     w = _where(u.fn('main'))
+    facts['driver_paths'] = paths
+    facts['main_explorer'] = lambda over, k=1: L.make_interp(P, u, opaque=opaque, extra_models=models, globals_=lazy_globals(dict(over, input_paths=inputs(k))), loop_limit=1) \
+        .explore('main', lambda ctx: [Sym('argc', 'int'), Sym('argv', 'char **')], max_paths=60000)
     n_asm_tmp = n_link = n_cc1 = 0
     for ctx, out in paths:
         evs = [e for e in L.calls_of(ctx) if e[1] in SUBPROC or e[1] in ('create_tmpfile', 'strarray_push')]
@@ -939,6 +984,87 @@ def r146(P, u, rep, cg, facts):
             if not want_reject:
                 rep.ob('R14.6', '%s:main:o-with-one-input-and-%s-accepted' % (U, flag[4:]), started > 0,
                        'with `-o out`, ONE input and -%s no path starts a subprocess: the legitimate command is rejected' % flag[4:], where=w)
+
+
+# ================================================================= R14.10 ===
+# process isolation of the front end: tokenizer, preprocessor, parser and code generator can end in a crash (stack
+# overflow on deeply nested input, assertion, out of memory) as well as in a diagnostic.  The driver survives that -
+# reaps the child, exits through exit(), unlinks its temporaries - only because the front end never runs in the
+# process that owns the temporaries.  Decided: which functions main calls in the driver role (opt_cc1 == 0, every
+# other option open) and in the cc1 role; nothing called in the driver role reaches the front end over the call graph.
+FRONT_PHASES = ('tokenize_file', 'preprocess', 'parse', 'codegen')
+
+
+def r1410(P, u, rep, cg, facts):
+    rep.rule('R14.10', 'the compiler front end (cc1 and the phases tokenize_file / preprocess / parse / codegen) runs only in a process started in the cc1 role: '
+                       'no function main calls in the driver role reaches it, and the cc1 role creates no temporaries and starts no stage', floor=4)
+    paths = facts.get('driver_paths')
+    explore = facts.get('main_explorer')
+    if not paths or explore is None:
+        rep.undecided('R14.10', '%s:main:driver-paths' % U, 'the driver-role paths of main could not be explored (R14.6)')
+        return
+    front = set(f for f in FRONT_PHASES if f in cg.defs)
+    if len(front) < 2:
+        rep.undecided('R14.10', '%s:cc1:phases' % U, 'the front-end phases %s are not defined any more (found: %s)' % ('/'.join(FRONT_PHASES), ', '.join(sorted(front)) or 'none'))
+        return
+    absent = [f for f in front if f not in cg.reach('cc1')]
+    if len(absent) == len(front):
+        rep.undecided('R14.10', '%s:cc1:phases' % U, 'cc1 reaches none of the front-end phases %s: the front-end anchor moved' % '/'.join(sorted(front)))
+        return
+    front.add('cc1')
+    w = _where(u.fn('main'))
+    try:
+        cc1_paths = explore({'opt_cc1': 1})
+    except AnalysisBroken as e:
+        rep.undecided('R14.10', '%s:main:cc1-role:interpretation' % U, str(e))
+        return
+    # ---- the cc1 role: runs the front end, owns no temporaries, starts nothing
+    tmp_fns = set(facts.get('tmp_fns', ())) | {'create_tmpfile'}
+    stage = set(SUBPROC) | set(facts.get('fork_fns', ())) | set(L.LAUNCH_FNS)
+    n_front = 0
+    for ctx, out in cc1_paths:
+        names = [e[1] for e in L.calls_of(ctx)]
+        if out[0] == 'ret':
+            ran = [n for n in names if n in front or (n in cg.defs and front & cg.reach(n))]
+            n_front += bool(ran)
+            rep.ob('R14.10', '%s:main:%s' % (U, 'cc1-role-runs-front-end' if ran else 'cc1-role-returns-without-front-end'), bool(ran),
+                   'a process started with -cc1 returns from main without running the front end: the driver takes the empty result for a compiled file', where=w, facts={'path': _fmt_path(ctx)})
+        bad = sorted(set(n for n in names if n in tmp_fns or n in stage or (n in cg.defs and (tmp_fns | set(L.LAUNCH_FNS)) & cg.reach(n) and n not in front and not front & cg.reach(n))))
+        rep.ob('R14.10', '%s:main:%s' % (U, 'cc1-role-starts-no-stage' if not bad else 'cc1-role-calls-%s' % '+'.join(bad)), not bad,
+               'a process in the cc1 role calls %s: the child creates temporaries or starts pipeline stages of its own' % ', '.join(bad), where=w, facts={'path': _fmt_path(ctx)})
+    if n_front == 0:
+        rep.undecided('R14.10', '%s:main:no-cc1-role-path' % U, 'no returning path of main with opt_cc1 set runs the front end: the role anchor (opt_cc1) moved')
+        return
+    # ---- the driver role: what main calls, and what those functions reach
+    called = {}
+    for ctx, out in paths:
+        for e in L.calls_of(ctx):
+            called.setdefault(e[1], e[3])
+    for f in sorted(called):
+        if f in front:
+            rep.ob('R14.10', '%s:main:runs-%s-in-driver-process' % (U, f), False,
+                   'main calls %s() on a path on which opt_cc1 is not set: the front end runs inside the driver process, so a crash of the front end (stack overflow on deeply nested input, '
+                   'assertion, out-of-memory kill) kills the driver itself - atexit handlers do not run and the temporaries it has created stay behind' % f, where='%s:%d' % (U, called[f]))
+            continue
+        if f not in cg.defs:
+            continue
+        fu = cg.defs[f][0][0].name
+        hit = sorted(front & cg.reach(f))
+        if not hit:
+            rep.ob('R14.10', '%s:%s:driver-side-stays-out-of-front-end' % (fu, f), True, '', where='%s:%d' % (U, called[f]))
+            continue
+        for h in hit:
+            p = cg.path(f, h) or [f, h]
+            g = p[-2]
+            if h != 'cc1' and 'cc1' in p:
+                continue        # reported once, for cc1
+            gu = cg.defs[g][0][0].name if g in cg.defs else fu
+            site = [c for (cu_, caller, c) in cg.sites.get(h, ()) if caller == g]
+            rep.ob('R14.10', '%s:%s:runs-%s-in-driver-process' % (gu, g, h), False,
+                   '%s() calls %s(), and main calls %s on paths on which opt_cc1 is not set (%s): the front end runs inside the driver process instead of a `-cc1` child, so a crash of the front end '
+                   '(stack overflow on deeply nested input, assertion, out-of-memory kill) kills the driver itself - atexit handlers do not run and the temporaries it has created stay behind; '
+                   'with the child process the driver reaps the crash, exits through exit(1) and cleans up'
+                   % (g, h, f, ' -> '.join(['main'] + p)), where=_where(site[0], gu) if site else '%s:%d' % (U, called[f]))
 
 
 # ================================================================== R14.7 ===
@@ -1097,8 +1223,82 @@ def r148(P, u, rep, cg, facts):
             _check_pipeline_names(rep, key0, sc, ctx, ins, expect, w)
         if nret == 0:
             rep.undecided('R14.8', key0 + ':no-success-path', 'no path of main returns for scenario %s' % sc)
+    _r148_cmdlines(P, u, rep, cg, pure, models)
     _r148_handover(P, u, rep, cg, facts, pure)
     _r148_cc1(P, u, rep, cg)
+
+
+# Concrete command lines through the REAL option parser: the scenarios above fix the state after option parsing by
+# hand (and so say nothing about how parse_args combines options); here argv is concrete, parse_args is interpreted
+# with main, and the language of an input comes from -x / the suffix as the parser and get_file_type decide it.
+# Expected (cc convention): -E / -M write no file from the driver and start nothing but cc1; an assembler input is
+# never compiled, a C input always is; -S of an assembler input and -c/-S/-E/-M of an object do nothing.
+_O1 = 'obj.d/unit.v3.o'
+_CMDLINES = [
+    # label, options, inputs, files expected from the driver, stages expected (None: not checked)
+    ('E-asm-suffix', ['-E'], [_A1], [], ['cc1']),
+    ('E-x-asm', ['-E', '-x', 'assembler'], [_A1], [], ['cc1']),
+    ('E-xasm-joined', ['-E', '-xassembler'], [_C1], [], ['cc1']),
+    ('x-asm-then-E', ['-x', 'assembler', '-E'], [_A1], [], ['cc1']),
+    ('E-xc', ['-E', '-xc'], [_A1], [], ['cc1']),
+    ('E+o-x-asm', ['-E', '-o', _OUT, '-x', 'assembler'], [_A1], [], ['cc1']),
+    ('M-c', ['-M'], [_C1], [], ['cc1']),
+    ('M-asm-suffix', ['-M'], [_A1], [], None),
+    ('M-x-asm', ['-M', '-x', 'assembler'], [_C1], [], None),
+    ('S-asm-suffix', ['-S'], [_A1], [], []),
+    ('S-x-asm', ['-S', '-x', 'assembler'], [_C1], [], []),
+    ('S-xc', ['-S', '-xc'], [_A1], [_stem(_A1) + '.s'], ['cc1']),
+    ('S+o-joined', ['-S', '-o' + _OUT], [_C1], [_OUT], ['cc1']),
+    ('c-x-asm', ['-c', '-x', 'assembler'], [_C1], [_stem(_C1) + '.o'], ['as']),
+    ('c-xc', ['-c', '-x', 'c'], [_A1], [_stem(_A1) + '.o'], ['cc1', 'as']),
+    ('c+o-joined', ['-c', '-o' + _OUT], [_C1], [_OUT], ['cc1', 'as']),
+    ('link-x-asm', ['-x', 'assembler'], [_C1], ['a.out'], ['as', 'ld']),
+    ('link-x-none', ['-x', 'assembler', '-x', 'none'], [_C1, _A1], ['a.out'], ['cc1', 'as', 'as', 'ld']),
+    ('link-obj', [], [_C1, _O1], ['a.out'], ['cc1', 'as', 'ld']),
+    ('link+o-obj', ['-o', _OUT], [_O1], [_OUT], ['ld']),
+    ('c-obj', ['-c'], [_C1, _O1], [_stem(_C1) + '.o'], ['cc1', 'as']),
+    ('S-obj', ['-S'], [_C1, _O1], [_stem(_C1) + '.s'], ['cc1']),
+]
+
+
+def _r148_cmdlines(P, u, rep, cg, pure, models):
+    if 'parse_args' not in u.functions:
+        rep.undecided('R14.8', '%s:main:cmd:option-parser' % U, 'parse_args vanished: command lines cannot be interpreted')
+        return
+    models = dict(models)
+    models['strarray_push'] = _m_strarray_push_store
+    opaque = [f for f in u.functions if f not in ('main', 'parse_args') and f not in pure]
+    w = _where(u.fn('main'))
+    for label, opts, ins, expect, want_stages in _CMDLINES:
+        key0 = '%s:main:cmd-%s' % (U, label)
+        words = ['chibicc'] + opts + ins
+        shown = ' '.join(words)
+        argv = Arr([L.cbuf(x, 'argv') for x in words] + [0], label='argv')
+        try:
+            it = L.make_interp(P, u, opaque=opaque, extra_models=models, globals_=_zero_statics(u, {}), loop_limit=2)
+            ps = it.explore('main', lambda ctx: [len(words), _Ref(ElemPlace(argv, 0))], max_paths=500)
+        except AnalysisBroken as e:
+            rep.undecided('R14.8', key0 + ':interpretation', str(e))
+            continue
+        nret = 0
+        for ctx, out in ps:
+            if out[0] != 'ret':
+                if out[1] != '__assert_fail':
+                    rep.undecided('R14.8', key0 + ':ends-in-%s' % out[1], '`%s` ends in %s%r on some path: rejected legitimate command line or state the model left open'
+                                  % (shown, out[1], tuple(a for a in out[2][:2] if isinstance(a, str))), where='%s:%d' % (U, out[3]))
+                continue
+            nret += 1
+            if ctx.decisions:
+                rep.undecided('R14.8', key0 + ':state-not-concrete', '`%s`: the path through parse_args and main depends on values the model leaves open (%s)' % (shown, ' / '.join(_fmt_path(ctx, 3))), where=w)
+                continue
+            got = _check_pipeline_names(rep, key0, '`%s`' % shown, ctx, ins, expect, w)
+            if want_stages is not None:
+                ok = got == want_stages
+                rep.ob('R14.8', key0 + (':expected-stages' if ok else ':runs-%s' % ('+'.join(got) or 'no-stage')), ok,
+                       '`%s` runs the stages [%s]; the command line asks for [%s]: an input is handled as the wrong kind of file for this mode (compiled instead of assembled or the reverse, '
+                       'assembled/linked although only preprocessing was requested, or skipped)' % (shown, ', '.join(got) or 'none', ', '.join(want_stages) or 'none'), where=w)
+        if nret == 0:
+            rep.undecided('R14.8', key0 + ':no-success-path', 'no path of main returns for `%s`' % shown)
 
 
 def _check_pipeline_names(rep, key0, sc, ctx, ins, expect, w):
@@ -1191,6 +1391,7 @@ def _check_pipeline_names(rep, key0, sc, ctx, ins, expect, w):
                'scenario %s (inputs %s): the driver returns success without any stage writing the requested output %r (written instead: %s)' % (sc, ', '.join(ins), nm, ', '.join(names) or 'nothing'), where=w)
     if not expect:
         rep.ob('R14.8', key0 + (':no-file-output' if not names else ':files-written-in-stdout-mode'), not names, 'scenario %s writes files (%s) although only standard output is requested' % (sc, ', '.join(names)), where=w)
+    return [st[0] for st in stages]
 
 
 def _r148_cc1(P, u, rep, cg):
